@@ -1392,6 +1392,11 @@ def exCross : Graph :=
 /-- `c1.net1` produced `p` and runs `c`; `c2.net2` reused `p` (told to fetch it from `c1.net1`'s pool) and runs `d` -/
 def exX3 : State := runSched exCross 100 (initState exCross 4 [] []) [(0, exNoOut), (0, exPass), (1, exNoOut)]
 
+/-- `c1.net1` alone: `p` passed, the result of `c` (node 2) was never reported (ten result waits, default ERROR, the
+placeholder stays), `d` is running -/
+def exX13 : State :=
+  runSched exCross 100 (initState exCross 4 [] []) ([(0, exNoOut), (0, exPass)] ++ List.replicate 11 (0, exNoOut))
+
 /-- the same two tests `p` (removable state; nodes 0, 1; the composite of the flat test 7) and `e` (nodes 2, 3; needs `p`
 and the plain setup `q`, nodes 4, 5; the composite of the flat test 8) expanded lazily: initially only the shared root
 (6) and the two flat tests exist -/
